@@ -34,6 +34,12 @@ pub struct GenOpts {
     pub permute_blocks: bool,
     /// the entry block may be empty (one function in ten)
     pub empty_entry: bool,
+    /// one function in five stores the instructions of some blocks in an order that is not the order of their
+    /// indices (Block::instructions_mut is public; positions, not indices, define the order of execution)
+    pub unordered_indices: bool,
+    /// calls: a Branch to a constant address in the middle of a block, behind which the block goes on (the callee
+    /// returns to the next instruction having changed whatever it liked)
+    pub calls: bool,
 }
 
 impl Default for GenOpts {
@@ -59,6 +65,8 @@ impl Default for GenOpts {
             sparse_indices: true,
             permute_blocks: true,
             empty_entry: true,
+            unordered_indices: true,
+            calls: false,
         }
     }
 }
@@ -262,6 +270,7 @@ pub fn generate(rng: &mut Rng, o: &GenOpts) -> Gen {
     }
     // ---- instructions
     let sparse = o.sparse_indices && rng.chance(1, 3);
+    let unordered = o.unordered_indices && rng.chance(1, 5);
     let mut next_addr: u64 = o.addr_base;
     let addr_base = next_addr;
     let mut branch_targets_needed: Vec<(usize, usize)> = Vec::new(); // (block, instr index) of Branch ops to patch
@@ -336,7 +345,22 @@ pub fn generate(rng: &mut Rng, o: &GenOpts) -> Gen {
                         }
                         11 => {
                             // non-affine updates: alignment (and sp, -16), constants, negation, scaling; nested affine
-                            match rng.below(6) {
+                            match rng.below(8) {
+                                // a displacement chosen by a register: sp - ite(c, 8, 16) (constant arms, non-constant condition),
+                                // and one chosen by a constant condition (which is an ordinary constant displacement)
+                                6 => {
+                                    let conds: Vec<&Scalar> = pool.iter().filter(|s| s.bits() == 1).collect();
+                                    let c = match conds.first() {
+                                        Some(s) => Expression::Scalar((*s).clone()),
+                                        None => cst(1, 1),
+                                    };
+                                    let d = Expression::Ite(Box::new(c), Box::new(cst(8, w)), Box::new(cst(16, w)));
+                                    block.assign(sp.clone(), Expression::Sub(Box::new(spe), Box::new(d)))
+                                }
+                                7 => {
+                                    let d = Expression::Ite(Box::new(cst(rng.below(2), 1)), Box::new(cst(8, w)), Box::new(cst(16, w)));
+                                    block.assign(sp.clone(), Expression::Add(Box::new(spe), Box::new(d)))
+                                }
                                 0 | 1 => block.assign(sp.clone(), Expression::And(Box::new(spe), Box::new(cst(!0xfu64, w)))),
                                 2 => block.assign(sp.clone(), cst(0x7000 + rng.below(16) * 8, w)),
                                 3 => block.assign(sp.clone(), Expression::Sub(Box::new(cst(rng.below(64) * 8, w)), Box::new(spe))),
@@ -412,6 +436,7 @@ pub fn generate(rng: &mut Rng, o: &GenOpts) -> Gen {
                     let idx = block.instructions().last().unwrap().index();
                     branch_targets_needed.push((bi, idx));
                 }
+                16 if o.calls && ninstr > 0 && rng.bool() => block.branch(cst(0xc0de_0000 + 16 * rng.below(4), 64)),
                 16 => block.nop(),
                 _ => {
                     let e = gen_expr(rng, w, o.expr_depth, &pool, o.divisions);
@@ -421,6 +446,15 @@ pub fn generate(rng: &mut Rng, o: &GenOpts) -> Gen {
         }
         for idx in sacrificial {
             block.remove_instruction(idx).unwrap();
+        }
+        if unordered && !(bi == 0 && o.def_before_use) && block.instructions().len() >= 2 && rng.bool() {
+            // keep an indirect branch last; rotate the rest so that index order and position order differ
+            let n = block.instructions().len();
+            let m = if matches!(block.instructions()[n - 1].operation(), il::Operation::Branch { .. }) { n - 1 } else { n };
+            if m >= 2 {
+                let k = 1 + rng.usize(m - 1);
+                block.instructions_mut()[..m].rotate_left(k);
+            }
         }
         // addresses
         let idxs: Vec<usize> = block.instructions().iter().map(|i| i.index()).collect();
